@@ -22,6 +22,8 @@ where
 {
     underlying: MultiPeek<I>,
     start_of_line: bool,
+    /// The previous token was a `;` or a `:`, i.e. a simple statement may start here.
+    after_separator: bool,
 }
 
 impl<I> SoftKeywordTransformer<I>
@@ -32,6 +34,7 @@ where
         Self {
             underlying: lexer.multipeek(), // spell-checker:ignore multipeek
             start_of_line: matches!(mode, Mode::Interactive | Mode::Module),
+            after_separator: false,
         }
     }
 }
@@ -104,11 +107,12 @@ where
                     }
                 }
                 // For `type` all of the following conditions must be met:
-                // 1. The token is at the start of a logical line.
+                // 1. The token is at the start of a simple statement: at the start of a
+                //    logical line, or after a `;` or the `:` of a compound statement header.
                 // 2. The type token is immediately followed by a name token.
                 // 3. The name token is eventually followed by an equality token.
                 Tok::Type => {
-                    if !self.start_of_line {
+                    if !self.start_of_line && !self.after_separator {
                         next = Some(Ok((soft_to_name(tok), *range)));
                     } else {
                         let mut is_type_alias = false;
@@ -148,6 +152,17 @@ where
                 _ => (), // Not a soft keyword token
             }
         }
+
+        self.after_separator = next.as_ref().is_some_and(|lex_result| {
+            lex_result.as_ref().is_ok_and(|(tok, _)| {
+                #[cfg(feature = "full-lexer")]
+                if matches!(tok, Tok::NonLogicalNewline | Tok::Comment { .. }) {
+                    return self.after_separator;
+                }
+
+                matches!(tok, Tok::Semi | Tok::Colon)
+            })
+        });
 
         self.start_of_line = next.as_ref().is_some_and(|lex_result| {
             lex_result.as_ref().is_ok_and(|(tok, _)| {
